@@ -1,3 +1,3 @@
 From Coq Require Import ExtrOcamlBasic.
-From PTK Require Import Lib.Sx Model.BufferEdit Model.C01_CaseWord.
-Extraction "c01_model.ml" run_C01x.
+From PTK Require Import Lib.Sx Model.BufferEdit Model.C01_CaseWord Model.C01_Views.
+Extraction "c01_model.ml" run_C01all.
